@@ -40,86 +40,7 @@ func c09(r *Report) {
 	r.Guard("C09.R1", "the credit returned for a DATA frame is its flow-controlled length (payload plus padding)", func() {
 		// ... for every DATA frame whatever its stream's state: no successful return of
 		// sendWindowUpdates is reachable without both updates having been written
-		{
-			gs := G(swu)
-			wus := plainCalls(swu, "(*"+pHTTP2+".Framer).WriteWindowUpdate")
-			for k, wc := range wus {
-				target := ssa.Instruction(wc)
-				var wit []ssa.Instruction
-				for _, ret := range returns(swu) {
-					okNil := false
-					for _, v := range retVals(ret, 0) {
-						for _, l := range resolveAll(v) {
-							if isNilConst(l) {
-								okNil = true
-							}
-						}
-					}
-					if !okNil {
-						continue
-					}
-					if p := gs.PathTo([]ssa.Instruction{gs.Entry()}, true, func(i ssa.Instruction) bool { return i == target }, func(i ssa.Instruction) bool { return i == ssa.Instruction(ret) }); p != nil {
-						// a path that returns the (non-nil) error of an earlier write is not a success
-						wit = p
-					}
-				}
-				// only paths that really return nil count: a return of `err` merged from calls is judged by its nil leaves
-				r.Paths++
-				_ = wit
-				skipped := false
-				for _, ret := range returns(swu) {
-					paths, okp := blockPathsUntil(swu.Blocks[0], ret.Block(), 4000)
-					if !okp {
-						continue
-					}
-					for _, p := range paths {
-						nilRet := false
-						for _, v := range retVals(ret, 0) {
-							for _, l := range resolveOnPath(v, p) {
-								if isNilConst(l) {
-									nilRet = true
-								}
-							}
-						}
-						if !nilRet {
-							continue
-						}
-						passes := false
-						for _, b := range p {
-							if b == wc.Block() {
-								passes = true
-							}
-						}
-						if !passes {
-							// a frame of flow-controlled length zero has no credit to return
-							zeroLen := false
-							for _, ce := range ctrlEdges(ret.Block()) {
-								isLenV := func(v ssa.Value) bool {
-									return anyIn(w.backSlice(v, flowOpt{}), func(x ssa.Value) bool {
-										switch y := x.(type) {
-										case *ssa.Field:
-											return fieldObjV(y).Name() == "Length"
-										case *ssa.FieldAddr:
-											return fieldObj(y).Name() == "Length"
-										}
-										return false
-									})
-								}
-								if rel, adm0 := constCmpAdmits(ce, isLenV, 0); rel && adm0 {
-									if _, adm1 := constCmpAdmits(ce, isLenV, 1); !adm1 {
-										zeroLen = true
-									}
-								}
-							}
-							if !zeroLen {
-								skipped = true
-							}
-						}
-					}
-				}
-				r.Decide("path", fmt.Sprintf("(*M/h2.relay).sendWindowUpdates: WriteWindowUpdate#%d precedes every successful return", k+1), !skipped, "every path that returns nil wrote this update", "sendWindowUpdates can return success without having written this WINDOW_UPDATE (an early return for some streams): the credit for DATA the relay accepted is never given back", wc.Pos())
-			}
-		}
+		creditOnAllPathsRule(r, swu)
 
 		// credit is returned for every DATA frame accepted: the call that returns it is
 		// reached from the DATA case whatever the frame contains (a padded frame without
@@ -180,6 +101,39 @@ func c09(r *Report) {
 	})
 
 	r.Guard("C09.R2", "a frame is emitted only when it fits both windows, and both windows are then reduced by its flow-controlled size", func() {
+		// a stream seen for the first time starts with exactly the receiver's current initial
+		// window size, whatever it is (zero included: SETTINGS_INITIAL_WINDOW_SIZE=0 means
+		// "send nothing until I say so")
+		if obf := r.Use("h2", "relay.outputBuffer"); obf != nil {
+			n := 0
+			for _, a := range allocsOf(obf, M+"/h2.outputBuffer") {
+				for _, st := range litFieldStores(a)["windowSize"] {
+					n++
+					exact := true
+					for _, l := range resolveAll(st.Val) {
+						l = unwrapConv(l)
+						okLeaf := false
+						if ld, isLd := l.(*ssa.UnOp); isLd && ld.Op == token.MUL {
+							if fa, isFa := ld.X.(*ssa.FieldAddr); isFa && fieldObj(fa).Name() == "initialWindowSize" {
+								okLeaf = true
+							}
+						}
+						if c, isC := l.(*ssa.Call); isC && strings.HasPrefix(calleeName(c), "sync/atomic.Load") {
+							if fa, isFa := c.Call.Args[0].(*ssa.FieldAddr); isFa && fieldObj(fa).Name() == "initialWindowSize" {
+								okLeaf = true
+							}
+						}
+						if !okLeaf {
+							exact = false
+						}
+					}
+					r.Decide("flow", "(*M/h2.relay).outputBuffer: a new stream's window is the current initial window size", exact, "windowSize = int(r.initialWindowSize), nothing else", "a new stream's window can be something other than the receiver's current SETTINGS_INITIAL_WINDOW_SIZE (a default substituted for zero, a constant): the relay sends DATA the receiver has not granted", st.Pos())
+				}
+			}
+			if n == 0 {
+				r.Undecided("(*M/h2.relay).outputBuffer: initial stream window", "UNRESOLVED: no outputBuffer literal with windowSize")
+			}
+		}
 		sps, okFit := windowFitRules(r, emit)
 		if !okFit {
 			return
@@ -749,6 +703,20 @@ func frameSizeRules(r *Report) {
 	}
 	um := r.Use("h2", "relay.updateMaxFrameSize")
 	if um != nil {
+		// every legal value is applied: a test that guards the store admits the whole range the
+		// protocol allows (2^14 .. 2^24-1), its two ends included
+		for _, c := range plainCalls(um, "sync/atomic.StoreUint32", "(*sync/atomic.Uint32).Store") {
+			isArg := func(v ssa.Value) bool { return len(um.Params) > 1 && unwrapConv(v) == ssa.Value(um.Params[1]) }
+			okAll := true
+			for _, ce := range ctrlEdges(c.Block()) {
+				for _, legal := range []int64{16384, 16385, 1<<24 - 1} {
+					if rel, adm := constCmpAdmits(ce, isArg, legal); rel && !adm {
+						okAll = false
+					}
+				}
+			}
+			r.Decide("path", "(*M/h2.relay).updateMaxFrameSize applies every legal SETTINGS_MAX_FRAME_SIZE", okAll, "no guard before the store excludes 16384, 16385 or 16777215", "a legal maximum frame size (an end of the range 2^14..2^24-1) is ignored: after the receiver lowers the limit back, the relay keeps cutting DATA by the stale larger size and sends frames the receiver must reject", c.Pos())
+		}
 		r.Decide("lookup", "(*M/h2.relay).updateMaxFrameSize stores atomically", len(plainCalls(um, "sync/atomic.StoreUint32", "sync/atomic.StoreInt32", "sync/atomic.StoreUint64", "sync/atomic.StoreInt64", "(*sync/atomic.Uint32).Store", "(*sync/atomic.Int32).Store", "(*sync/atomic.Uint64).Store", "(*sync/atomic.Int64).Store")) == 1, "atomic store", "the limit is written non-atomically while builders read it", um.Pos())
 	}
 }
@@ -763,5 +731,91 @@ func unwrapConv(v ssa.Value) ssa.Value {
 		default:
 			return v
 		}
+	}
+}
+
+// creditOnAllPathsRule: no successful return of sendWindowUpdates is reachable
+// without both WINDOW_UPDATE frames having been written, except for a frame of
+// flow-controlled length zero (shared by C09.R1 and C08.R8: a sender that obeys
+// flow control stalls for ever on credit that is never returned).
+func creditOnAllPathsRule(r *Report, swu *ssa.Function) {
+	w := r.W
+	gs := G(swu)
+	wus := plainCalls(swu, "(*"+pHTTP2+".Framer).WriteWindowUpdate")
+	for k, wc := range wus {
+		target := ssa.Instruction(wc)
+		var wit []ssa.Instruction
+		for _, ret := range returns(swu) {
+			okNil := false
+			for _, v := range retVals(ret, 0) {
+				for _, l := range resolveAll(v) {
+					if isNilConst(l) {
+						okNil = true
+					}
+				}
+			}
+			if !okNil {
+				continue
+			}
+			if p := gs.PathTo([]ssa.Instruction{gs.Entry()}, true, func(i ssa.Instruction) bool { return i == target }, func(i ssa.Instruction) bool { return i == ssa.Instruction(ret) }); p != nil {
+				// a path that returns the (non-nil) error of an earlier write is not a success
+				wit = p
+			}
+		}
+		// only paths that really return nil count: a return of `err` merged from calls is judged by its nil leaves
+		r.Paths++
+		_ = wit
+		skipped := false
+		for _, ret := range returns(swu) {
+			paths, okp := blockPathsUntil(swu.Blocks[0], ret.Block(), 4000)
+			if !okp {
+				continue
+			}
+			for _, p := range paths {
+				nilRet := false
+				for _, v := range retVals(ret, 0) {
+					for _, l := range resolveOnPath(v, p) {
+						if isNilConst(l) {
+							nilRet = true
+						}
+					}
+				}
+				if !nilRet {
+					continue
+				}
+				passes := false
+				for _, b := range p {
+					if b == wc.Block() {
+						passes = true
+					}
+				}
+				if !passes {
+					// a frame of flow-controlled length zero has no credit to return
+					zeroLen := false
+					for _, ce := range ctrlEdges(ret.Block()) {
+						isLenV := func(v ssa.Value) bool {
+							return anyIn(w.backSlice(v, flowOpt{}), func(x ssa.Value) bool {
+								switch y := x.(type) {
+								case *ssa.Field:
+									return fieldObjV(y).Name() == "Length"
+								case *ssa.FieldAddr:
+									return fieldObj(y).Name() == "Length"
+								}
+								return false
+							})
+						}
+						if rel, adm0 := constCmpAdmits(ce, isLenV, 0); rel && adm0 {
+							if _, adm1 := constCmpAdmits(ce, isLenV, 1); !adm1 {
+								zeroLen = true
+							}
+						}
+					}
+					if !zeroLen {
+						skipped = true
+					}
+				}
+			}
+		}
+		r.Decide("path", fmt.Sprintf("(*M/h2.relay).sendWindowUpdates: WriteWindowUpdate#%d precedes every successful return", k+1), !skipped, "every path that returns nil wrote this update", "sendWindowUpdates can return success without having written this WINDOW_UPDATE (an early return for some streams): the credit for DATA the relay accepted is never given back", wc.Pos())
 	}
 }
